@@ -72,6 +72,22 @@ def _run(ev, work, thorough, pid):
                                   or any(c < 0 for c in case["cells"])):
                 ev.nontrivial.add(json.dumps({k: case[k] for k in ("cls", "n", "nullpat", "valpat", "mode", "rppwant", "v",
                                                                   "rgo", "stats", "codec")}, sort_keys=True))
+    if pid in ("C01", "C02"):
+        # the same cases arriving as an append to an existing file (schema taken from the file, not from the frame)
+        aj, ar = CW.run_appends(cases, work)
+        napp = 0
+        for j, r in zip(aj, ar):
+            if isinstance(r, Crashed):
+                verd.add({"what": "interpreter crashed or hung in a write/append/read sequence"}, {"first_case": j[1][0]})
+                continue
+            if "error" in r:
+                raise RuntimeError("append replay machinery failed:\n" + r["error"])
+            ev.evaluations += r["evals"]
+            napp += r["evals"]
+            for (p, sig, ci) in r["viol"]:
+                if p == pid:
+                    verd.add(sig, {"case": j[1][ci], "via": "append"}, cost=j[1][ci]["n"])
+        ev.extra["append_replays"] = napp
     if pid == "C02":
         sj, sr = CW.run_sweep(work)
         nfiles = 0
@@ -104,7 +120,10 @@ def replay(path, pid=PID):
     case = doc["replay"]["case"]
     with scratch() as work:
         os.makedirs(os.path.join(work, "r"))
-        r = CW.replay_chunk((0, [case], os.path.join(work, "r")))
+        if doc["replay"].get("via") == "append":
+            r = CW.append_chunk((0, [case], os.path.join(work, "r")))
+        else:
+            r = CW.replay_chunk((0, [case], os.path.join(work, "r")))
     mine = [v for v in r["viol"] if v[0] == pid]
-    print(json.dumps({"viol": mine, "drift": r["drift"], "error": r.get("error")}, indent=1, default=str))
+    print(json.dumps({"viol": mine, "drift": r.get("drift"), "error": r.get("error")}, indent=1, default=str))
     return 1 if mine else 0
